@@ -13,18 +13,6 @@ namespace Rs
 
 def keyOf (id : Nat) (c : Bool) : Nat × Opts := (id, ⟨c, false⟩)
 
-/-- `(columns, kind)` -/
-abbrev RCall2 := Bool × RCall
-
-def rootCall2 (id : Nat) (inner : Src) (c : RCall2) (σ : Store) : RAns × Store :=
-  match c.2 with
-  | .stream => (.stream ((Src.cached id inner).stream ⟨c.1, false⟩ σ).1, ((Src.cached id inner).stream ⟨c.1, false⟩ σ).2)
-  | .map => (.map ((Src.cached id inner).map ⟨c.1, false⟩ σ).1, ((Src.cached id inner).map ⟨c.1, false⟩ σ).2)
-
-def runRoot2 (id : Nat) (inner : Src) : List RCall2 → Store → List (RCall2 × RAns) × Store
-  | [], σ => ([], σ)
-  | c :: cs, σ => ((c, (rootCall2 id inner c σ).1) :: (runRoot2 id inner cs (rootCall2 id inner c σ).2).1, (runRoot2 id inner cs (rootCall2 id inner c σ).2).2)
-
 def mapFill2 (inner : Src) (c : Bool) : Option SMap := (getMap inner.strip ⟨c, false⟩ []).1
 def streamFill2 (inner : Src) (c : Bool) : Option SMap := mapOfEvs c (inner.strip.stream ⟨c, false⟩ []).1.evs
 
@@ -155,30 +143,6 @@ theorem rootInv2_cold (id : Nat) (inner : Src) (σ : Store) (h0 : ∀ o, σ.get?
   fun c => Or.inl ⟨h0 _, cold_coldAt σ _ hc _, cold_coldAt σ _ hc _⟩
 
 /-! ## with `source()` / `buffer()` / `size()` calls interleaved -/
-
-/-- every call of the property's history alphabet that the model's store distinguishes: `map` / `stream_chunks` with a column setting,
-and the text views (which never touch the caches) -/
-inductive RCall3 where
-  | io (c : RCall2)
-  | src
-  | buffer
-  | size
-
-inductive RAns3 where
-  | io (a : RAns)
-  | text (t : Text)
-  | num (n : Nat)
-
-def rootCall3 (id : Nat) (inner : Src) (c : RCall3) (σ : Store) : RAns3 × Store :=
-  match c with
-  | .io c2 => (.io (rootCall2 id inner c2 σ).1, (rootCall2 id inner c2 σ).2)
-  | .src => (.text (Src.cached id inner).src, σ)
-  | .buffer => (.text (Src.cached id inner).buffer, σ)
-  | .size => (.num (Src.cached id inner).size, σ)
-
-def runRoot3 (id : Nat) (inner : Src) : List RCall3 → Store → List (RCall3 × RAns3) × Store
-  | [], σ => ([], σ)
-  | c :: cs, σ => ((c, (rootCall3 id inner c σ).1) :: (runRoot3 id inner cs (rootCall3 id inner c σ).2).1, (runRoot3 id inner cs (rootCall3 id inner c σ).2).2)
 
 /-- what an answer must be: the views are the wrapped source's; `map` / `stream_chunks` as in `runRoot2_answers` -/
 def AnsOK3 (inner : Src) (c : RCall3) (a : RAns3) : Prop :=
